@@ -1,115 +1,10 @@
 ------------------------------- MODULE Window -------------------------------
 (***************************************************************************)
-(* yata::core::Window<T> : circular buffer (src/core/window.rs).            *)
-(*                                                                           *)
-(* Two descriptions live here:                                              *)
-(*   - the implementation-shaped one: a record [buf, index, size, s_1]      *)
-(*     updated with the same PeriodType arithmetic the Rust code uses, one  *)
-(*     operator per public call, every outcome modelled (value / None /     *)
-(*     panic);                                                              *)
-(*   - the abstract one: `hist`, the sequence of the last N pushes, oldest  *)
-(*     first (the construction value counts as N earlier pushes).           *)
-(* MC_Window checks that every observer of the first equals the reading of *)
-(* the second in every reachable state; Trace_Window validates recorded     *)
-(* executions of the real type against the abstract readings.               *)
-(*                                                                           *)
-(* Buffers are TLA+ sequences (1-based); Rust indices are 0-based, hence    *)
-(* the `+ 1` at every access.  Every access site has an InBounds predicate  *)
-(* (these are the `get_unchecked` sites of the unsafe_performance build).   *)
+(* yata::core::Window<T>: WindowCore.tla (every definition) plus the        *)
+(* recursive operators that run an iterator k steps.  Every other module    *)
+(* extends this one.                                                        *)
 (***************************************************************************)
-EXTENDS Integers, Sequences, Period
-
-Some(v) == <<"some", v>>
-None    == <<"none">>
-Panic   == <<"panic">>
-IsSome(o) == o[1] = "some"
-
-----------------------------------------------------------------------------
-(* Construction *)
-
-\* Window::new(size, value); debug_assert!(size <= PeriodType::MAX - 1)
-WNewPanics(n) == n > PMAX - 1
-WNew(n, v) == [buf |-> [i \in 1..n |-> v], index |-> 0, size |-> n, s_1 |-> SatSub(n, 1)]
-
-\* Window::empty()
-WEmpty == [buf |-> <<>>, index |-> 0, size |-> 0, s_1 |-> 0]
-
-\* Window::from_parts(slice, index): two assert!s, then the struct literal
-WFromPartsPanics(buf, index) == ~(Len(buf) < PMAX) \/ ~(Len(buf) > index)
-WFromParts(buf, index) ==
-    LET size == Cast(Len(buf))
-    IN  [buf |-> buf, index |-> index, size |-> size, s_1 |-> SatSub(size, 1)]
-
-----------------------------------------------------------------------------
-(* push *)
-
-InB(w, i0) == i0 >= 0 /\ i0 < Len(w.buf)          \* 0-based index inside the buffer
-
-WPushPanics(w)   == w.size = 0 \/ ~InB(w, w.index) \* debug_assert!(!is_empty) / bounds check
-WPushOut(w)      == w.buf[w.index + 1]
-WPush(w, v)      == [w EXCEPT !.buf[w.index + 1] = v,
-                              !.index = IF w.index # w.s_1 THEN PAdd(w.index, 1) ELSE 0]
-\* `(self.index != self.s_1) as PeriodType * (self.index + 1)` evaluates index + 1
-\* unconditionally: it must not overflow even when the product is discarded.
-WPushArithOk(w)  == PAdd(w.index, 1) # OVF
-
-----------------------------------------------------------------------------
-(* observers *)
-
-WNewestIdx(w)    == IF w.index >= 1 THEN w.index - 1 ELSE w.s_1
-WNewest(w)       == IF InB(w, WNewestIdx(w)) THEN Some(w.buf[WNewestIdx(w) + 1]) ELSE Panic
-WOldest(w)       == IF InB(w, w.index) THEN Some(w.buf[w.index + 1]) ELSE Panic
-WLen(w)          == w.size
-WIsEmpty(w)      == Len(w.buf) = 0
-WAsSlice(w)      == w.buf
-
-\* fn slice_index(&self, index) -> Option<PeriodType>   (-1 = None)
-SliceIndex(w, i) ==
-    IF w.s_1 < i THEN -1
-    ELSE LET idx       == w.s_1 - i
-             saturated == SatAdd(w.index, idx)
-             overflow  == IF saturated >= w.size THEN 1 ELSE 0
-             s         == PSub(w.size, w.index)
-         IN  IF s = OVF THEN OVF - 1            \* arithmetic panic (never reachable: index < size)
-             ELSE overflow * SatSub(idx, s) + (1 - overflow) * saturated
-
-WGet(w, i) ==
-    LET b == SliceIndex(w, i)
-    IN  IF b = -2 THEN Panic
-        ELSE IF b = -1 THEN None
-        ELSE IF InB(w, b) THEN Some(w.buf[b + 1]) ELSE None
-
-WIndex(w, i) ==
-    LET b == SliceIndex(w, i)
-    IN  IF b < 0 THEN Panic
-        ELSE IF InB(w, b) THEN Some(w.buf[b + 1]) ELSE Panic
-\* the unchecked access in Index is in bounds whenever the safe build does not panic
-WIndexInBounds(w, i) == LET b == SliceIndex(w, i) IN b >= 0 => InB(w, b) \/ w.size = 0
-
-----------------------------------------------------------------------------
-(* iterators: state [index, size]; `w` is the borrowed window *)
-
-ItNew(w) == [index |-> w.index, size |-> w.size]
-
-\* WindowIterator::next (newest -> oldest)
-ItNext(w, it) ==
-    IF it.size = 0 THEN [out |-> None, it |-> it]
-    ELSE LET at_start == IF it.index = 0 THEN 1 ELSE 0
-             ni       == SatSub(it.index, 1) + at_start * w.s_1
-         IN  [out |-> IF InB(w, ni) THEN Some(w.buf[ni + 1]) ELSE Panic,
-              it  |-> [index |-> ni, size |-> it.size - 1]]
-
-\* ReversedWindowIterator::next (oldest -> newest)
-RevNext(w, it) ==
-    IF it.size = 0 THEN [out |-> None, it |-> it]
-    ELSE [out |-> IF InB(w, it.index) THEN Some(w.buf[it.index + 1]) ELSE Panic,
-          it  |-> [index |-> IF it.index # w.s_1 THEN it.index + 1 ELSE 0, size |-> it.size - 1]]
-
-ItSizeHint(it) == it.size
-ItCount(it)    == it.size
-\* last(): nothing left => None, otherwise the final element of the traversal
-ItLast(w, it)  == IF it.size = 0 THEN None ELSE WOldest(w)
-RevLast(w, it) == IF it.size = 0 THEN None ELSE WNewest(w)
+EXTENDS WindowCore
 
 \* run an iterator k steps: [outs |-> the k results, its |-> the k+1 iterator states]
 RECURSIVE ItRun(_, _, _, _, _), RevRun(_, _, _, _, _)
@@ -121,50 +16,5 @@ RevRun(w, it, k, outs, its) ==
     ELSE LET r == RevNext(w, it) IN RevRun(w, r.it, k - 1, Append(outs, r.out), Append(its, r.it))
 ItFull(w, k)  == ItRun(w, ItNew(w), k, <<>>, <<ItNew(w)>>)
 RevFull(w, k) == RevRun(w, ItNew(w), k, <<>>, <<ItNew(w)>>)
-
-----------------------------------------------------------------------------
-(* serde *)
-
-WSerialize(w) == [buf |-> w.buf, index |-> w.index]
-
-\* Deserialize: [res |-> "ok" | "err" | "panic", w |-> the window when ok]
-WDeserialize(buf, index) ==
-    IF Len(buf) > PMAX - 1 THEN [res |-> "err", w |-> WEmpty]
-    ELSE IF Len(buf) = 0 /\ index = 0 THEN [res |-> "ok", w |-> WEmpty]   \* the empty window round-trips
-    ELSE IF Cast(Len(buf)) <= index THEN [res |-> "err", w |-> WEmpty]
-    ELSE IF WFromPartsPanics(buf, index) THEN [res |-> "panic", w |-> WEmpty]
-    ELSE [res |-> "ok", w |-> WFromParts(buf, index)]
-
-\* structural well-formedness of an instance (what every unchecked access relies on)
-WellFormed(w) ==
-    /\ w.size = Len(w.buf)
-    /\ w.size <= PMAX - 1
-    /\ w.s_1 = SatSub(w.size, 1)
-    /\ (w.size = 0 => w.index = 0)
-    /\ (w.size > 0 => w.index < w.size)
-
-----------------------------------------------------------------------------
-(* The abstract machine: h = the last N pushes, oldest first *)
-
-AbsNew(n, v)    == [i \in 1..n |-> v]
-AbsPushOut(h)   == h[1]
-AbsPush(h, v)   == Append(Tail(h), v)
-AbsNewest(h)    == IF Len(h) = 0 THEN Panic ELSE Some(h[Len(h)])
-AbsOldest(h)    == IF Len(h) = 0 THEN Panic ELSE Some(h[1])
-AbsGet(h, i)    == IF i < Len(h) THEN Some(h[Len(h) - i]) ELSE None
-AbsIndex(h, i)  == IF i < Len(h) THEN Some(h[Len(h) - i]) ELSE Panic
-\* element sequences of the two traversals
-AbsIter(h)      == [j \in 1..Len(h) |-> h[Len(h) + 1 - j]]
-AbsRev(h)       == h
-\* what an iterator over sequence s must report after k elements have been taken
-AbsTaken(s, k)  == [j \in 1..(IF k <= Len(s) THEN k ELSE Len(s)) |-> Some(s[j])]
-                     \o [j \in 1..(IF k <= Len(s) THEN 0 ELSE k - Len(s)) |-> None]
-AbsRemaining(s, k) == IF k >= Len(s) THEN 0 ELSE Len(s) - k
-AbsLast(s, k)   == IF k >= Len(s) THEN None ELSE Some(s[Len(s)])
-\* what is left after k elements were taken, and the j-th (0-based) of those
-AbsRest(s, k)   == IF k >= Len(s) THEN <<>> ELSE SubSeq(s, k + 1, Len(s))
-AbsNth(s, k, j) == IF k + j + 1 <= Len(s) THEN Some(s[k + j + 1]) ELSE None
-\* the sequence represented by an exported buffer and the index of its oldest element
-AbsFromParts(buf, index) == [j \in 1..Len(buf) |-> buf[((index + j - 1) % Len(buf)) + 1]]
 
 =============================================================================
